@@ -56,9 +56,15 @@ type hpeer struct {
 }
 
 func newPeer(outbound bool) *hpeer {
+	n := atomic.LoadInt64(&peerSeq) + 1
+	return newPeerAt(outbound, net.IPv4(8, byte(n>>16), byte(n>>8), byte(n))) // routable
+}
+
+// newPeerAt: a peer connecting from the given address (the /16 of a peer decides which address-book buckets its
+// advertisements land in).
+func newPeerAt(outbound bool, ip net.IP) *hpeer {
 	n := atomic.AddInt64(&peerSeq, 1)
 	id := p2p.ID(fmt.Sprintf("%040x", n))
-	ip := net.IPv4(8, byte(n>>16), byte(n>>8), byte(n)) // routable
 	p := &hpeer{id: id, outbound: outbound, kv: map[string]interface{}{}, sent: map[byte]int{}}
 	p.addr = p2p.NewNetAddressIPPort(ip, 26656)
 	p.addr.ID = id
